@@ -120,7 +120,15 @@ func runC30(r *lib.Run) {
 			switch {
 			case len(dang) > 0 && err == nil:
 				for _, l := range dang {
-					r.Violate("dangling-accepted", leafrefClass(l), fmt.Sprintf("Validate() returned nil although %s = %s is not in the node-set of %s", l.Path, l.Val, l.Field.LeafrefPath), w)
+					cls := leafrefClass(l)
+					if m := curPredRe.FindStringSubmatch(l.Field.LeafrefPath); m != nil && len(l.Elems) > 0 {
+						// the value the predicate compares with: a sibling of the reference
+						sib := lib.PathString(l.Elems[:len(l.Elems)-1]) + "/" + m[2]
+						if sl := o.Leaves[sib]; sl != nil && sl.Val == "string:*" {
+							cls += ":predicate-value-is-the-string-*"
+						}
+					}
+					r.Violate("dangling-accepted", cls, fmt.Sprintf("Validate() returned nil although %s = %s is not in the node-set of %s", l.Path, l.Val, l.Field.LeafrefPath), w)
 				}
 			case len(dang) == 0 && err != nil:
 				cls := "none-dangling"
